@@ -360,6 +360,13 @@ func runC18(c *harness.Ctx) {
 				for id := range acceptable {
 					okSet[id] = true
 				}
+				if r.sf != nil && !r.crashed {
+					// the start came up in spite of the injected error and has told
+					// Tor (SMETHOD ARGS) who it is: that, and nothing else, is what the
+					// following starts present
+					okSet = map[ident]bool{identOf(r.sf): true}
+					c.Feature("start-succeeded-under-injected-error")
+				}
 				failed := false
 				for pi, pk := range post {
 					d.ResetPlan()
